@@ -2,7 +2,8 @@
 
     Per module M: the parameter record (decimal / integer fields are [option Z]: [None] = the Go
     field is nil, which makes the library's comparisons and arithmetic panic), [validate_M]
-    mirroring [Params.Validate()] branch by branch, the update by message / by genesis, and every
+    mirroring [Params.Validate()] branch by branch (of the FIXED code: repo commits 8ab26ad,
+    de3d691, 46986d3), the update by message / by genesis, and every
     parameter-consuming arithmetic path of the handlers and blockers with its abort points
     explicit ([Panic why], [why] naming the Go expression that panics).
 
@@ -111,10 +112,12 @@ Definition validate_cs (p : cs_params) : outcome :=
   | None => Abort
   | Some f =>
       if negb (in_open01 f) then Rej
+      else if negb (denom_valid (c_denom (cs_pcf p))) then Rej   (* PoolCreationFee.Validate(): denom *)
       else match c_amt (cs_pcf p) with
-           | None => Abort                                   (* PoolCreationFee.IsPositive on nil *)
+           | None => Rej                                     (* ... "amount is nil" (fix de3d691; was a panic in IsPositive) *)
            | Some a =>
-               if negb (0 <? a) then Rej
+               if a <? 0 then Rej                            (* ... negative amount *)
+               else if negb (0 <? a) then Rej                (* IsPositive *)
                else match cs_tax p with
                     | None => Abort
                     | Some t =>
@@ -234,12 +237,18 @@ Definition cs_path (p : cs_params) (o : cs_op) : option res :=
 (** ** farm  (modules/farm/types/params.go, keeper/{fees,msg_server}.go) *)
 Record fm_params := mkFm { fm_pcf : coin; fm_maxcat : Z; fm_tax : option Z }.
 
-(** [Params.Validate]: the creation fee ([Coin.IsValid]: nil amount is an ordinary error) *)
+(** [Params.Validate]: the creation fee ([Coin.IsValid]: nil amount is an ordinary error), then
+    [validateTaxRate] (fix 8ab26ad; the unfixed code never validated the tax rate) *)
 Definition validate_fm (p : fm_params) : outcome :=
   if negb (denom_valid (c_denom (fm_pcf p))) then Rej
   else match c_amt (fm_pcf p) with
        | None => Rej
-       | Some a => if a <? 0 then Rej else Ok
+       | Some a =>
+           if a <? 0 then Rej
+           else match fm_tax p with
+                | None => Abort                              (* TaxRate.GT on a nil decimal *)
+                | Some t => if negb (in_open01 t) then Rej else Ok
+                end
        end.
 
 Definition update_fm := update_with validate_fm (fun _ => true).
@@ -529,8 +538,9 @@ Definition validate_tk (p : tk_params) : outcome :=
   | None => Abort
   | Some r =>
   if negb (rate_closed01 r) then Rej
+  else if negb (denom_valid (c_denom (tk_fee p))) then Rej   (* IssueTokenBaseFee.Validate(): denom (fix 46986d3) *)
   else match c_amt (tk_fee p) with
-  | None => Abort                                            (* IssueTokenBaseFee.IsNegative on nil *)
+  | None => Rej                                              (* ... "amount is nil" (was a panic in IsNegative) *)
   | Some a =>
   if a <? 0 then Rej
   else if negb ((tk_beacon p =? 0) || (tk_beacon p =? 1)) then Rej
@@ -597,4 +607,111 @@ Definition tk_path (p : tk_params) (o : tk_op) : option res :=
   | TkIssue f b => Some (tk_issue p f b)
   | TkMint f b => Some (tk_mint p f b)
   | TkOther => None
+  end.
+
+(** ** The five parameter records as one chain state, and histories over it.
+    A step is either an attempt to update one module's parameters ([via] as above) or one operation
+    of a module, which reads that module's STORED parameters.  The operations carry the part of the
+    chain state they meet (reserves, balances, supplies ...) as arguments: the parameter-consuming
+    paths above are functions of the stored parameters and of those values only. *)
+Record pstate := mkPS {
+  ps_cs : cs_params; ps_fm : fm_params; ps_ht : ht_params; ps_sv : sv_params; ps_tk : tk_params }.
+
+Inductive pstep :=
+| UpdCS (via : Z) (p : cs_params) | UpdFM (via : Z) (p : fm_params) | UpdHT (via : Z) (p : ht_params)
+| UpdSV (via : Z) (p : sv_params) | UpdTK (via : Z) (p : tk_params)
+| OpCS (o : cs_op) | OpFM (o : fm_op) | OpHT (o : ht_op) | OpSV (o : sv_op) | OpTK (o : tk_op).
+
+(** state after the step *)
+Definition pstep_state (s : pstate) (st : pstep) : pstate :=
+  match st with
+  | UpdCS via p => mkPS (snd (update_cs via p (ps_cs s))) (ps_fm s) (ps_ht s) (ps_sv s) (ps_tk s)
+  | UpdFM via p => mkPS (ps_cs s) (snd (update_fm via p (ps_fm s))) (ps_ht s) (ps_sv s) (ps_tk s)
+  | UpdHT via p => mkPS (ps_cs s) (ps_fm s) (snd (update_ht via p (ps_ht s))) (ps_sv s) (ps_tk s)
+  | UpdSV via p => mkPS (ps_cs s) (ps_fm s) (ps_ht s) (snd (update_sv via p (ps_sv s))) (ps_tk s)
+  | UpdTK via p => mkPS (ps_cs s) (ps_fm s) (ps_ht s) (ps_sv s) (snd (update_tk via p (ps_tk s)))
+  | _ => s
+  end.
+
+(** outcome of an update step ([None] for operations) *)
+Definition upd_outcome (s : pstate) (st : pstep) : option outcome :=
+  match st with
+  | UpdCS via p => Some (fst (update_cs via p (ps_cs s)))
+  | UpdFM via p => Some (fst (update_fm via p (ps_fm s)))
+  | UpdHT via p => Some (fst (update_ht via p (ps_ht s)))
+  | UpdSV via p => Some (fst (update_sv via p (ps_sv s)))
+  | UpdTK via p => Some (fst (update_tk via p (ps_tk s)))
+  | _ => None
+  end.
+
+(** result of an operation step under the stored parameters ([None]: an update, or an operation
+    whose path does not read parameters / is not modelled) *)
+Definition op_result (s : pstate) (st : pstep) : option res :=
+  match st with
+  | OpCS o => cs_path (ps_cs s) o
+  | OpFM o => fm_path (ps_fm s) o
+  | OpHT o => ht_path (ps_ht s) o
+  | OpSV o => sv_path (ps_sv s) o
+  | OpTK o => tk_path (ps_tk s) o
+  | _ => None
+  end.
+
+Definition run (s : pstate) (h : list pstep) : pstate := fold_left pstep_state h s.
+
+(** an update step that is neither a message signed by the authority (via = 0) nor genesis (via = 2) *)
+Definition unprivileged (st : pstep) : bool :=
+  match st with
+  | UpdCS via _ | UpdFM via _ | UpdHT via _ | UpdSV via _ | UpdTK via _ => via =? 1
+  | _ => true
+  end.
+
+(** every stored set is one the module's validation accepts *)
+Definition ps_valid (s : pstate) : Prop :=
+  validate_cs (ps_cs s) = Ok /\ validate_fm (ps_fm s) = Ok /\ validate_ht (ps_ht s) = Ok
+  /\ validate_sv (ps_sv s) = Ok /\ validate_tk (ps_tk s) = Ok.
+
+(** *** Side conditions of the no-abort theorems.
+
+    (1) What [ValidateBasic] and the bank guarantee about operation inputs: amounts are positive,
+    reserves of an existing pool are positive, and amounts taken from the chain (request fees,
+    deposits) are below 2^255 -- above that the SAME operation overflows under the default
+    parameters as well. *)
+Definition two255 : Z := 2 ^ 255.
+
+Definition cs_op_wf (o : cs_op) : Prop :=
+  match o with
+  | CsSell x _ _ _ => 0 <= x
+  | CsBuy y _ _ _ => 0 <= y
+  | CsAddUni x T L _ => 0 <= x /\ 0 < T /\ 0 <= L
+  | CsRemoveUni d _ _ _ => 0 < d
+  | _ => True
+  end.
+
+Definition sv_op_wf (o : sv_op) : Prop :=
+  match o with
+  | SvBind price _ _ _ => 0 <= price
+  | SvRespond fee _ => 0 <= fee < two255
+  | SvBlocks deps => Forall (fun d => 0 <= d < two255) deps
+  | _ => True
+  end.
+
+(** the fee factor of a symbol of 3..64 characters lies in [1.00, 205.14] *)
+Definition tk_op_wf (o : tk_op) : Prop :=
+  match o with
+  | TkIssue F _ | TkMint F _ => P18 <= F
+  | TkOther => True
+  end.
+
+(** (2) The known finding: a creation / issue fee amount of 2^255.2 or more overflows the 315-bit
+    [LegacyDec] inside the fee split.  [*_small] excludes exactly that. *)
+Definition cs_small (p : cs_params) : Prop := amt_or0 (c_amt (cs_pcf p)) < two255.
+Definition fm_small (p : fm_params) : Prop := amt_or0 (c_amt (fm_pcf p)) < two255.
+Definition tk_small (p : tk_params) : Prop := amt_or0 (c_amt (tk_fee p)) < two255.
+Definition ps_small (s : pstate) : Prop := cs_small (ps_cs s) /\ fm_small (ps_fm s) /\ tk_small (ps_tk s).
+
+Definition step_wf (st : pstep) : Prop :=
+  match st with
+  | UpdCS _ p => cs_small p | UpdFM _ p => fm_small p | UpdTK _ p => tk_small p
+  | OpCS o => cs_op_wf o | OpSV o => sv_op_wf o | OpTK o => tk_op_wf o
+  | _ => True
   end.
